@@ -51,6 +51,8 @@ THEOREMS = [
     "SleapVerif.C12.gt_peaks_append",
     "SleapVerif.C12.gt_peaks_perm",
     "SleapVerif.C12.gt_pad_rows",
+    "SleapVerif.C12.single_indices_carried",
+    "SleapVerif.C12.gt_indices_carried",
 ]
 ULPS = 8        # same input ⇒ (today) the same float32 arithmetic; values are compared within a few float32 ulps
 VAL_TIE = 1e-6
@@ -162,15 +164,25 @@ def consumer_frames(predictor_outputs_fn):
         sio.PredictedInstance.from_numpy = orig
 
 
+SIG_F32 = "frame_idx_float32_rounding"
+
+
+def f32_rounded(fr, got_fidx):
+    """structural predicate of F-C12c: the frame's index is not representable in float32 and the record
+    carries exactly its float32 rounding"""
+    return fr.frame_idx > 2 ** 24 and int(np.float32(fr.frame_idx)) == got_fidx and got_fidx != fr.frame_idx
+
+
 def check_topdown(chk, case):
     vids = frames_of(case)
-    by_code = {f.code: f for v in vids for f in v}
     order = [tuple(o) for o in case["order"]]
     frames = [vids[v][k] for v, k in order]
     mi, B = case["max_instances"], case["batch"]
     small = {k: v for k, v in case.items()}
+    cc = {**case, "consumer": True}
     try:
-        rows_b, gsz_b, cen_b = impl_topdown(case, "LabelsReader", vids)
+        rows_b, gsz_b, cen_b = impl_topdown(cc, "LabelsReader", vids)
+        lfs_b = c02.LAST.get("labeled_frames", [])
         rows_1, gsz_1, cen_1 = impl_topdown({**case, "batch": 1}, "LabelsReader", vids)
         perm = [tuple(o) for o in case["perm"]]
         rows_p, gsz_p, cen_p = impl_topdown({**case, "order": perm}, "LabelsReader", vids)
@@ -186,62 +198,13 @@ def check_topdown(chk, case):
                      [c["code"] for c in cen_b], [f.code for f in frames])
         chk.fail("C12/C13: frames reach the network out of order / not exactly once", small, None)
         return
-    # ---- model
-    peaks, tie = [], False
-    for fr, ce in zip(frames, cen_b):
-        pk, eff = frame_peaks(fr, ce, case)
-        if pk is None:
-            tie = True
-            break
-        vals = sorted(v for _, _, _, v in pk)
-        if mi is not None and len(pk) > mi and any(b - a < VAL_TIE for a, b in zip(vals, vals[1:])):
-            tie = True
-        if len({(cx, cy) for _, cx, cy, _ in pk}) != len(pk):
-            tie = True
-        peaks.append((fr, pk, eff))
-    if tie:
-        chk.knife_edges += 1
-        return
-    fl = f"{len(frames)} " + " ".join(
-        f"{fr.frame_idx} {fr.video} {rat(stubs.eff_scale_nominal(fr.H, fr.W, *case['max_hw']))} {len(pk)} "
-        + " ".join(f"{ai} {rat(v)}" for ai, _, _, v in pk) for fr, pk, eff in peaks)
-    lines = [f"gen {B} {'-' if mi is None else mi} {fl}", f"cc {'-' if mi is None else mi} {fl}",
-             f"gen 1 {'-' if mi is None else mi} {fl}"]
-    m_gen, m_cc, m_gen1 = (yield lines)
-
-    def parse_groups(line):
-        t = line.split()
-        assert t[0] == "ok", line
-        ng, pos, out = int(t[1]), 2, []
-        for _ in range(ng):
-            n = int(t[pos]); pos += 1
-            g = []
-            for _ in range(n):
-                g.append((int(t[pos]), int(t[pos + 1]), float(c02.unrat(t[pos + 2])), int(t[pos + 3]),
-                          float(c02.unrat(t[pos + 4]))))
-                pos += 5
-            out.append(g)
-        return out
-    mg = parse_groups(m_gen)
-    if m_gen != m_cc or m_gen != m_gen1:
-        chk.disagree("model: predictGen B = predictGen 1 = one batch (batchsize_irrelevant)", small, m_gen, m_cc)
-    ig = [[(r["fidx"], r["vidx"], r["eff"], r["animal"], r["cval"]) for r in g] for g in topdown_groups(rows_b)]
     n_an = [len(f.animals) for f in frames]
-    chk.case(("topdown", json.dumps(small, sort_keys=True)),
-             {"case": "topdown", "B": B, "max_instances": mi, "refine": case["refine"], "animals_per_frame": n_an,
-              "order": order, "impl_groups": [[list(x[:2]) + [x[3]] for x in g] for g in ig][:6], "model": m_gen[:300]},
-             tags=["topdown", f"B={B}", f"mi={mi}", f"refine={case['refine']}",
-                   "has_empty_frame" if 0 in n_an else "no_empty_frame",
-                   "topk_active" if (mi is not None and any(n > mi for n in n_an)) else "topk_inactive",
-                   f"videos={len(vids)}"] + ([f"bias={case['bias']}"] if case.get("bias") else []))
-    ok = len(ig) == len(mg) and all(
-        len(a) == len(b) and all(x[:2] == y[:2] and x[3] == y[3] and abs(x[2] - y[2]) <= TOL and abs(x[4] - y[4]) <= TOL
-                                 for x, y in zip(a, b)) for a, b in zip(ig, mg))
-    if not ok:
-        chk.disagree("TopDownPredictor groups == Decode.predictGen B (centroidCrop mi)", small,
-                     [[list(x) for x in g] for g in ig][:8], m_gen[:600])
-    # ---- property oracles on the implementation (independent of the model)
-    why = []
+    big = any(f.frame_idx > 2 ** 24 for f in frames)
+    for c0 in range(0, len(frames), B):
+        if not any(n_an[c0:c0 + B]):
+            chk.tag("all_empty_batch")
+    # ---- model-free oracles first (they need no tie handling)
+    why, why_f32 = [], []
     bb, b1, bp = rows_by_code(rows_b), rows_by_code(rows_1), rows_by_code(rows_p)
     for fr in frames:
         a, b, c = bb.get(fr.code, []), b1.get(fr.code, []), bp.get(fr.code, [])
@@ -251,26 +214,110 @@ def check_topdown(chk, case):
             why.append(f"frame (video {fr.video}, idx {fr.frame_idx}): records change when the frame order is permuted")
         for r in a:
             if (r["fidx"], r["vidx"]) != (fr.frame_idx, fr.video):
-                why.append(f"row computed from the image of (video {fr.video}, idx {fr.frame_idx}) carries "
-                           f"(video {r['vidx']}, idx {r['fidx']})")
+                msg = (f"row computed from the image of (video {fr.video}, idx {fr.frame_idx}) carries "
+                       f"(video {r['vidx']}, idx {r['fidx']})")
+                (why_f32 if (r["vidx"] == fr.video and f32_rounded(fr, r["fidx"])) else why).append(msg)
         if not fr.animals and a:
             why.append(f"empty frame (video {fr.video}, idx {fr.frame_idx}) produced {len(a)} rows")
-        # the animals kept are the highest-scoring ones (values read by the harness from the rendered map)
-        pk = next(p for f, p, _ in peaks if f is fr)
-        want_n = len(pk) if mi is None else min(mi, len(pk))
-        kept = sorted(r["animal"] for r in a)
-        best = sorted(ai for ai, _, _, v in sorted(pk, key=lambda t: -t[3])[:want_n])
-        if kept != best:
-            why.append(f"frame (video {fr.video}, idx {fr.frame_idx}): kept animals {kept}, highest-scoring {best} "
-                       f"(max_instances={mi}, values {[(ai, round(v, 4)) for ai, _, _, v in pk]})")
     n_groups_want = sum(1 for fr in frames if fr.animals)
     if len(gsz_b) != n_groups_want:
         why.append(f"{len(gsz_b)} output groups for {n_groups_want} frames with detections")
+    # ---- the real consumer: one LabeledFrame per frame with detections, with that frame's (video, index),
+    #      holding exactly the instances of the raw rows (peak + bbox top-left)
+    want_lf = {}
+    for fr in frames:
+        if bb.get(fr.code):
+            want_lf[(fr.video, fr.frame_idx)] = [r["pts"] for r in bb[fr.code]]
+    got_lf = {}
+    for v, f, insts in lfs_b:
+        got_lf.setdefault((v, f), []).extend(insts)
+    if len(lfs_b) != len(got_lf):
+        why.append("the consumer produced two LabeledFrames for one (video, frame)")
+    for key, insts in want_lf.items():
+        g = got_lf.get(key)
+        if g is None:
+            fr = next(f for f in frames if (f.video, f.frame_idx) == key)
+            alt = (key[0], int(np.float32(key[1])))
+            msg = f"no LabeledFrame for (video {key[0]}, frame {key[1]}); consumer has {sorted(got_lf)[:6]}"
+            (why_f32 if (key[1] > 2 ** 24 and alt in got_lf) else why).append(msg)
+        elif len(g) != len(insts) or not all(pts_close(x, y, 1e-4) for x, y in zip(g, insts)):
+            why.append(f"LabeledFrame (video {key[0]}, frame {key[1]}) does not hold the frame's {len(insts)} instances")
+    extra = [k for k in got_lf if k not in want_lf]
+    if extra:
+        (why_f32 if all(k[1] >= 2 ** 24 for k in extra) and big else why).append(f"LabeledFrames for frames that have no rows: {extra[:4]}")
+    chk.tag("consumer_topdown")
+    # ---- model (needs the harness's reading of the centroid maps; knife edges skip only this part)
+    peaks, tie = [], False
+    for fr, ce in zip(frames, cen_b):
+        pk, eff = frame_peaks(fr, ce, case)
+        if pk is None:
+            tie = True
+            break
+        vals = sorted(v for _, _, _, v in pk)
+        if mi is not None and len(pk) > mi and any(b - a < VAL_TIE for a, b in zip(vals, vals[1:])):
+            tie = True
+        peaks.append((fr, pk, eff))
+    ok = True
+    if tie:
+        chk.knife_edges += 1
+    else:
+        fl = f"{len(frames)} " + " ".join(
+            f"{fr.frame_idx} {fr.video} {rat(stubs.eff_scale_nominal(fr.H, fr.W, *case['max_hw']))} {len(pk)} "
+            + " ".join(f"{ai} {rat(v)}" for ai, _, _, v in pk) for fr, pk, eff in peaks)
+        lines = [f"gen {B} {'-' if mi is None else mi} {fl}", f"cc {'-' if mi is None else mi} {fl}",
+                 f"gen 1 {'-' if mi is None else mi} {fl}"]
+        m_gen, m_cc, m_gen1 = (yield lines)
+
+        def parse_groups(line):
+            t = line.split()
+            assert t[0] == "ok", line
+            ng, pos, out = int(t[1]), 2, []
+            for _ in range(ng):
+                n = int(t[pos]); pos += 1
+                g = []
+                for _ in range(n):
+                    g.append((int(t[pos]), int(t[pos + 1]), float(c02.unrat(t[pos + 2])), int(t[pos + 3]),
+                              float(c02.unrat(t[pos + 4]))))
+                    pos += 5
+                out.append(g)
+            return out
+        mg = parse_groups(m_gen)
+        if m_gen != m_cc or m_gen != m_gen1:
+            chk.disagree("model: predictGen B = predictGen 1 = one batch (batchsize_irrelevant)", small, m_gen, m_cc)
+        ig = [[(r["fidx"], r["vidx"], r["eff"], r["animal"], r["cval"]) for r in g] for g in topdown_groups(rows_b)]
+        idx_ok = (lambda x, y: x[:2] == y[:2]) if not why_f32 else (lambda x, y: x[1] == y[1])
+        ok = len(ig) == len(mg) and all(
+            len(a) == len(b) and all(idx_ok(x, y) and x[3] == y[3] and close(x[2], y[2]) and close(x[4], y[4])
+                                     for x, y in zip(a, b)) for a, b in zip(ig, mg))
+        if not ok:
+            chk.disagree("TopDownPredictor groups == Decode.predictGen B (centroidCrop mi)", small,
+                         [[list(x) for x in g] for g in ig][:8], m_gen[:600])
+        # the animals kept are the highest-scoring ones (values read by the harness from the rendered map)
+        for fr in frames:
+            pk = next(p for f, p, _ in peaks if f is fr)
+            want_n = len(pk) if mi is None else min(mi, len(pk))
+            kept = sorted(r["animal"] for r in bb.get(fr.code, []))
+            best = sorted(ai for ai, _, _, v in sorted(pk, key=lambda t: -t[3])[:want_n])
+            if kept != best:
+                why.append(f"frame (video {fr.video}, idx {fr.frame_idx}): kept animals {kept}, highest-scoring {best} "
+                           f"(max_instances={mi}, values {[(ai, round(v, 4)) for ai, _, _, v in pk]})")
+    gains = sorted({a.gain for f in frames for a in f.animals})
+    chk.case(("topdown", json.dumps(small, sort_keys=True)),
+             {"case": "topdown", "B": B, "max_instances": mi, "refine": case["refine"], "animals_per_frame": n_an,
+              "order": order, "frame_idx": [f.frame_idx for f in frames], "labeled_frames": [list(k) for k in got_lf][:6]},
+             tags=["topdown", f"B={B}", f"mi={mi}", f"refine={case['refine']}",
+                   "has_empty_frame" if 0 in n_an else "no_empty_frame",
+                   "topk_active" if (mi is not None and any(n > mi for n in n_an)) else "topk_inactive",
+                   "peak_heights_varied" if len(gains) > 1 else "peak_heights_equal",
+                   "frame_idx>2^24" if big else "frame_idx_small",
+                   f"videos={len(vids)}"] + ([f"bias={case['bias']}"] if case.get("bias") else []))
+    if why_f32 and not why:
+        chk.fail("C12: top-down records of frames with index > 2^24 carry the float32 rounding of the index: "
+                 + "; ".join(why_f32[:2]), small, {"frame_idx": [f.frame_idx for f in frames],
+                                                    "rows": sorted({(r["vidx"], r["fidx"]) for r in rows_b})}, [SIG_F32])
     if why:
         chk.fail("C12 fails on TopDownPredictor: " + "; ".join(why[:3]), small,
                  {"batch": brief(rows_b, True), "alone": brief(rows_1, True)})
-    elif not ok:
-        pass  # correspondence broken, property holds on this input: reported as no-failing-input by finish()
 
 
 # ------------------------------------------------------------------ single instance
@@ -281,11 +328,16 @@ def check_single(chk, case):
     B = case["batch"]
     small = dict(case)
     try:
-        rows_b, sizes_b = impl_single(case, "LabelsReader", vids)
+        rows_b, sizes_b = impl_single({**case, "consumer": True}, "LabelsReader", vids)
+        lfs_b = c02.LAST.get("labeled_frames", [])
         rows_1, sizes_1 = impl_single({**case, "batch": 1}, "LabelsReader", vids)
         rows_p, sizes_p = impl_single({**case, "order": [tuple(o) for o in case["perm"]]}, "LabelsReader", vids)
-        rows_v, sizes_v = impl_single({**case, "order": None}, "VideoReader", vids)
-        rows_v1, _ = impl_single({**case, "order": None, "batch": 1}, "VideoReader", vids)
+        dense = [f.frame_idx for f in vids[0]] == list(range(len(vids[0])))
+        if dense:    # VideoReader walks range(0, n_frames): only for videos without index gaps
+            rows_v, sizes_v = impl_single({**case, "order": None}, "VideoReader", vids)
+            rows_v1, _ = impl_single({**case, "order": None, "batch": 1}, "VideoReader", vids)
+        else:
+            rows_v = rows_v1 = sizes_v = None
     except stubs.StubAmbiguous:
         chk.tag("stub_ambiguous_skipped")
         return
@@ -296,11 +348,12 @@ def check_single(chk, case):
     (m_chunks, m_chunks_v) = (yield [f"chunks {B} {len(frames)}", f"chunks {B} {len(vids[0])}"])
     chk.case(("single", json.dumps(small, sort_keys=True)),
              {"case": "single", "B": B, "order": order, "sizes": sizes_b, "model": m_chunks},
-             tags=["single", f"B={B}", f"refine={case['refine']}", f"videos={len(vids)}"]
+             tags=["single", f"B={B}", f"refine={case['refine']}", f"videos={len(vids)}",
+                   "frame_idx>2^24" if any(f.frame_idx > 2 ** 24 for f in frames) else "frame_idx_small"]
              + ([f"bias={case['bias']}"] if case.get("bias") else []))
     if "ok " + " ".join(map(str, sizes_b)) != m_chunks.strip() and not (not sizes_b and m_chunks.strip() == "ok"):
         chk.disagree("_predict_generator rows per output dict == Decode.chunks", small, sizes_b, m_chunks)
-    if "ok " + " ".join(map(str, sizes_v)) != m_chunks_v.strip():
+    if sizes_v is not None and "ok " + " ".join(map(str, sizes_v)) != m_chunks_v.strip():
         chk.disagree("_predict_generator (VideoReader) rows per output dict == Decode.chunks", small, sizes_v, m_chunks_v)
     why = []
     if [r["code"] for r in rows_b] != [f.code for f in frames]:
@@ -319,14 +372,137 @@ def check_single(chk, case):
             why.append(f"row computed from the image of (video {fr.video}, idx {fr.frame_idx}) carries "
                        f"(video {a[0]['vidx']}, idx {a[0]['fidx']})")
     # VideoReader: video 0 in natural order, index = position
-    if [r["code"] for r in rows_v] != [f.code for f in vids[0]] or \
-            [(r["fidx"], r["vidx"]) for r in rows_v] != [(f.frame_idx, 0) for f in vids[0]]:
-        why.append("VideoReader rows are not video 0's frames in order with their own indices")
-    if not same_rows(rows_v, rows_v1, False):
-        why.append(f"VideoReader: rows with batch size {B} differ from batch size 1")
+    if rows_v is not None:
+        if [r["code"] for r in rows_v] != [f.code for f in vids[0]] or \
+                [(r["fidx"], r["vidx"]) for r in rows_v] != [(f.frame_idx, 0) for f in vids[0]]:
+            why.append("VideoReader rows are not video 0's frames in order with their own indices")
+        if not same_rows(rows_v, rows_v1, False):
+            why.append(f"VideoReader: rows with batch size {B} differ from batch size 1")
+    # the real consumer: one LabeledFrame per frame, in order, with the frame's (video, index) and its row
+    chk.tag("consumer_single")
+    if [(v, f) for v, f, _ in lfs_b] != [(fr.video, fr.frame_idx) for fr in frames]:
+        why.append(f"consumer LabeledFrames {[(v, f) for v, f, _ in lfs_b][:6]} are not the frames "
+                   f"{[(fr.video, fr.frame_idx) for fr in frames][:6]} in order")
+    else:
+        for (v, f, insts), r in zip(lfs_b, rows_b):
+            if len(insts) != 1 or not pts_close(insts[0], r["pts"], 1e-4):
+                why.append(f"LabeledFrame (video {v}, frame {f}) does not hold the frame's row")
+                break
     if why:
         chk.fail("C12 fails on SingleInstancePredictor: " + "; ".join(why[:3]), small,
                  {"batch": brief(rows_b, False), "alone": brief(rows_1, False)})
+
+
+# ------------------------------------------------------------------ top-down with ground-truth CENTROIDS
+def impl_gtc(case, vids):
+    """REAL TopDownPredictor(centred-instance model only): CentroidCrop(use_gt_centroids=True) +
+    FindInstancePeaks, LabelsReader(instances_key=True)."""
+    flat = [f for v in vids for f in v]
+    scene = stubs.Scene(flat, case["n_nodes"])
+    labels, _ = stubs.make_labels(vids, node_names=[f"n{i}" for i in range(case["n_nodes"])], order=case.get("order"),
+                                  ramp=True)
+    p, inet = stubs.build_topdown_gtc(scene, labels.skeletons, si=case["si"], os_i=case["os_i"], ms_i=case["ms_i"],
+                                      crop_hw=case["crop_hw"], max_hw=tuple(case["max_hw"]), batch_size=case["batch"],
+                                      refinement=case["refine"], threshold=c02.THR)
+    out = stubs.run_predict(p, "LabelsReader", labels)
+    lfs = stubs.labeled_frames_of(p, out)
+    rows = []
+    for gi, o in enumerate(out):
+        for r in range(len(o["frame_idx"])):
+            tl = o["instance_bbox"][r, 0, 0, :]
+            fin = o["pred_instance_peaks"][r] + tl[None, :]
+            lg = inet.log[gi][r]
+            rows.append({"group": gi, "fidx": int(o["frame_idx"][r]), "vidx": int(o["video_idx"][r]),
+                         "eff": float(o["eff_scale"][r]), "bbox_tl": [float(tl[0]), float(tl[1])],
+                         "pts": [None if np.isnan(q).any() else [float(q[0]), float(q[1])] for q in fin],
+                         "vals": [float(v) for v in o["pred_peak_values"][r]], "cval": float(o["centroid_val"][r]),
+                         "code": lg["code"], "animal": lg["animal"]})
+    return rows, lfs
+
+
+def check_gtc(chk, case):
+    if False:
+        yield []        # (a generator like the other checks; this one has no model query)
+    vids = frames_of(case)
+    order = [tuple(o) for o in case["order"]]
+    frames = [vids[v][k] for v, k in order]
+    B = case["batch"]
+    small = dict(case)
+    try:
+        rows_b, lfs_b = impl_gtc(case, vids)
+        rows_1, _ = impl_gtc({**case, "batch": 1}, vids)
+        rows_p, _ = impl_gtc({**case, "order": [tuple(o) for o in case["perm"]]}, vids)
+    except stubs.StubAmbiguous:
+        chk.tag("stub_ambiguous_skipped")
+        return
+    except Exception as e:
+        chk.disagree("implementation raised where the model does not", small, f"raise:{type(e).__name__}: {str(e)[:200]}", "ok")
+        chk.fail(f"C12: top-down with ground-truth centroids raised {type(e).__name__} on a well-formed frame list: {str(e)[:200]}",
+                 small, None)
+        return
+    n_an = [len(f.animals) for f in frames]
+    chk.case(("gtc", json.dumps(small, sort_keys=True)),
+             {"case": "gt_centroids", "B": B, "animals_per_frame": n_an, "order": order, "rows": len(rows_b)},
+             tags=["gt_centroids", f"B={B}", "frame_idx>2^24" if any(f.frame_idx > 2 ** 24 for f in frames) else "frame_idx_small"])
+    why, why_f32 = [], []
+    bb, b1, bp = rows_by_code(rows_b), rows_by_code(rows_1), rows_by_code(rows_p)
+    for fr in frames:
+        a, b, c = bb.get(fr.code, []), b1.get(fr.code, []), bp.get(fr.code, [])
+        if not same_rows(a, b, True):
+            why.append(f"frame (video {fr.video}, idx {fr.frame_idx}): records in a batch of {B} differ from the frame alone")
+        if not same_rows(a, c, True):
+            why.append(f"frame (video {fr.video}, idx {fr.frame_idx}): records change when the frame order is permuted")
+        if sorted(r["animal"] for r in a) != list(range(len(fr.animals))):
+            why.append(f"frame (video {fr.video}, idx {fr.frame_idx}): crops for animals {sorted(r['animal'] for r in a)}, "
+                       f"{len(fr.animals)} labelled")
+        for r in a:
+            if (r["fidx"], r["vidx"]) != (fr.frame_idx, fr.video):
+                msg = (f"row computed from the image of (video {fr.video}, idx {fr.frame_idx}) carries "
+                       f"(video {r['vidx']}, idx {r['fidx']})")
+                (why_f32 if (r["vidx"] == fr.video and f32_rounded(fr, r["fidx"])) else why).append(msg)
+    got = {}
+    for v, f, insts in lfs_b:
+        got.setdefault((v, f), []).extend(insts)
+    for fr in frames:
+        key = (fr.video, fr.frame_idx)
+        rws = bb.get(fr.code, [])
+        g = got.get(key)
+        if g is None:
+            (why_f32 if fr.frame_idx > 2 ** 24 and (fr.video, int(np.float32(fr.frame_idx))) in got else why).append(
+                f"no LabeledFrame for (video {key[0]}, frame {key[1]})")
+        elif len(g) != len(rws) or not all(pts_close(x, r["pts"], 1e-4) for x, r in zip(g, rws)):
+            why.append(f"LabeledFrame (video {key[0]}, frame {key[1]}) does not hold the frame's {len(rws)} instances")
+    if why_f32 and not why:
+        chk.fail("C12: top-down records of frames with index > 2^24 carry the float32 rounding of the index: "
+                 + "; ".join(why_f32[:2]), small, None, [SIG_F32])
+    if why:
+        chk.fail("C12 fails on top-down with ground-truth centroids: " + "; ".join(why[:3]), small,
+                 {"batch": brief(rows_b, True), "alone": brief(rows_1, True)})
+
+
+def gen_gtc(rng, i):
+    """centred-instance-only predictor: crops around GROUND-TRUTH centroids (bbox midpoint of the visible
+    nodes); instance-stage scale 1 (this branch crops before the pre-crop resize); 1…4 animals mixed"""
+    for _ in range(60):
+        case = gen_topdown_case(rng, refine=("integral" if i % 2 else None), max_instances=None, counts=(1, 2, 2, 3, 4))
+        case["videos"] = case["videos"][:1]
+        v = case["videos"][0]
+        while len(v) < 3:
+            v.append(json.loads(json.dumps(v[rng.randrange(len(v))])))
+        if all(f["animals"] for f in v) and len({len(f["animals"]) for f in v}) > 1:
+            break
+    case["si"] = 1.0
+    for f in v:
+        for a in f["animals"]:
+            if all(p is None for p in a["pts"]):
+                a["pts"][0] = list(a["centroid"])
+            vis = [p for p in a["pts"] if p is not None]
+            a["centroid"] = [(min(p[0] for p in vis) + max(p[0] for p in vis)) / 2,
+                             (min(p[1] for p in vis) + max(p[1] for p in vis)) / 2]
+    case["pipeline"] = "gtc"
+    if i % 3 == 2:
+        sparse_indices(rng, case)
+    return add_order(rng, case, subset=False)
 
 
 # ------------------------------------------------------------------ top-down with ground-truth peaks
@@ -373,6 +549,20 @@ def which_animal(fr, inst):
     return None
 
 
+def gt_expected(fr, pk, case, eff):
+    """which labelled animal every detected centroid is paired with: the nearest instance (min over its
+    visible nodes) to the centroid estimate `cell·os/s/eff`, in original-image coordinates (HEAD, f7807c8)"""
+    ids = []
+    for _, cx, cy, _ in pk:
+        c = (cx * case["os_c"] / case["sc"] / eff, cy * case["os_c"] / case["sc"] / eff)
+        d = [min(math.hypot(p[0] - c[0], p[1] - c[1]) for p in an.pts if p is not None) for an in fr.animals]
+        srt = sorted(d)
+        if len(srt) > 1 and srt[1] - srt[0] < 1e-3:
+            return None
+        ids.append(int(np.argmin(d)))
+    return ids
+
+
 def check_gt(chk, case):
     vids = frames_of(case)
     order = [tuple(o) for o in case["order"]]
@@ -392,70 +582,14 @@ def check_gt(chk, case):
                  small, None)
         return
     max_inst = max(len(f.animals) for v in vids for f in v)     # the reader pads to the labels' maximum
-    # model: per frame the matched animals in centroid order (row-major cells, top-k by value when limited)
-    per, tie = [], False
-    for fr, r in zip(frames, rows_b):
-        pk, _ = frame_peaks(fr, r, case)
-        if pk is None:
-            tie = True
-            break
-        if mi is not None and len(pk) > mi:
-            vals = sorted(v for _, _, _, v in pk)
-            if any(b - a < VAL_TIE for a, b in zip(vals, vals[1:])):
-                tie = True
-                break
-            pk = sorted(pk, key=lambda t: -t[3])[:mi]
-        per.append([ai for ai, _, _, _ in pk])
-    if tie or len(rows_b) != len(frames):
-        if tie:
-            chk.knife_edges += 1
-            return
-    (ml,) = (yield [f"gtparse {max_inst} {len(per)} " + " ".join(f"{len(m)} " + " ".join(map(str, m)) for m in per)])
-    toks = ml.split()[1:]
     n_an = [len(f.animals) for f in frames]
-    chk.case(("gt", json.dumps(small, sort_keys=True)),
-             {"case": "gt_peaks", "B": B, "max_instances": mi, "animals_per_frame": n_an, "order": order, "model": ml[:200]},
-             tags=["gt_peaks", f"B={B}", f"mi={mi}", "gt_eff=1" if case["max_hw"][0] is None else "gt_eff!=1",
-                   "fewer_than_max_before_another" if any(n < max_inst for n in n_an[:-1]) else "no_short_frame_first"])
-    why, ok = [], len(rows_b) == len(frames)
-    if ok:
-        mismatch = None
-        for i, (fr, r) in enumerate(zip(frames, rows_b)):
-            want = toks[i * max_inst:(i + 1) * max_inst]
-            got = ["-" if inst is None else str(which_animal(fr, inst)) for inst in r["insts"]]
-            if got != want and mismatch is None:
-                mismatch = (i, got, want)
-        if mismatch is not None:
-            # structural predicate of F-C12b: size matching is active and every frame's rows are exactly
-            # what nearest-instance matching gives when the centroids (÷ eff) are compared with the
-            # ground-truth instances still in size-matched (× eff) coordinates
-            effs = [float(stubs.eff_scale_nominal(fr.H, fr.W, *case["max_hw"])) for fr in frames]
-            mixed_all = any(e != 1.0 for e in effs)
-            for fr, r, e in zip(frames, rows_b, effs):
-                pk, _ = frame_peaks(fr, r, case)
-                if mi is not None and len(pk) > mi:
-                    pk = sorted(pk, key=lambda t: -t[3])[:mi]
-                ids = []
-                for _, cx, cy, _ in pk:
-                    c = (cx * case["os_c"] / case["sc"] / e, cy * case["os_c"] / case["sc"] / e)
-                    d = [min(math.hypot(p[0] * e - c[0], p[1] * e - c[1]) for p in an.pts if p is not None)
-                         for an in fr.animals]
-                    ids.append(int(np.argmin(d)))
-                pred = ([str(a) for a in ids] + ["-"] * max_inst)[:max_inst]
-                got = ["-" if inst is None else str(which_animal(fr, inst)) for inst in r["insts"]]
-                if got != pred:
-                    mixed_all = False
-            if mixed_all:
-                chk.tag("gt_peaks_mixed_coordinate_match")
-                chk.fail("C12/C02: FindInstancePeaksGroundTruth pairs centroids (÷ eff_scale) with ground-truth instances "
-                         f"still in size-matched coordinates: position {mismatch[0]} returns animals {mismatch[1]}, labelled order {mismatch[2]}",
-                         small, {"position": mismatch[0], "got": mismatch[1], "want": mismatch[2]}, [SIG_GT_EFF])
-                return
-            ok = False
-            chk.disagree("FindInstancePeaksGroundTruth rows == Decode.gtPeaks", {**small, "position": mismatch[0]},
-                         mismatch[1], mismatch[2])
-    else:
+    n_bumps = [sum(a.rendered for a in f.animals) + len(f.phantoms) for f in frames]
+    plain = all(a.rendered for f in frames for a in f.animals) and not any(f.phantoms for f in frames)
+    # ---- model-free oracles first
+    why, contract = [], {}
+    if len(rows_b) != len(frames):
         chk.disagree("one output row block per frame", small, len(rows_b), len(frames))
+        why.append(f"{len(rows_b)} row blocks for {len(frames)} frames")
     bb, b1, bp = rows_by_code(rows_b), rows_by_code(rows_1), rows_by_code(rows_p)
     for fr in frames:
         a, b, c = bb.get(fr.code, []), b1.get(fr.code, []), bp.get(fr.code, [])
@@ -469,33 +603,96 @@ def check_gt(chk, case):
             why.append(f"frame (video {fr.video}, idx {fr.frame_idx}): instances change when the frame order is permuted")
         if (a["fidx"], a["vidx"]) != (fr.frame_idx, fr.video):
             why.append(f"rows computed from the image of (video {fr.video}, idx {fr.frame_idx}) carry (video {a['vidx']}, idx {a['fidx']})")
-        # every returned instance is one of THIS frame's labelled animals, none twice; all of them when unlimited
+        # every returned instance is one of THIS frame's labelled animals (a frame never gets another frame's)
         ids = [which_animal(fr, inst) for inst in a["insts"] if inst is not None]
-        if None in ids or len(set(ids)) != len(ids):
+        if None in ids:
             why.append(f"frame (video {fr.video}, idx {fr.frame_idx}) returns instances that are not its own labelled animals: {ids}")
-        elif mi is None and sorted(ids) != list(range(len(fr.animals))):
-            why.append(f"frame (video {fr.video}, idx {fr.frame_idx}) returns animals {sorted(ids)} of {len(fr.animals)} labelled")
+        contract[fr.code] = sorted(ids)
+    # ---- model: per frame the matched animals in centroid order (row-major cells, top-k by value when limited)
+    per, tie = [], False
+    for fr, r in zip(frames, rows_b):
+        pk, eff = frame_peaks(fr, r, case)
+        if pk is None:
+            tie = True
+            break
+        if mi is not None and len(pk) > mi:
+            vals = sorted(v for _, _, _, v in pk)
+            if any(b - a < VAL_TIE for a, b in zip(vals, vals[1:])):
+                tie = True
+                break
+            pk = sorted(pk, key=lambda t: -t[3])[:mi]
+        ids = gt_expected(fr, pk, case, eff)
+        if ids is None:
+            tie = True
+            break
+        per.append(ids)
+    if tie or len(rows_b) != len(frames):
+        if tie:
+            chk.knife_edges += 1
+    else:
+        # beyond C12's text (the matching contract of the GT path, C02's side; needs the knife-edge guard
+        # above: every labelled animal detected exactly once): with no limit each animal is returned once
+        if plain and mi is None:
+            for fr in frames:
+                if fr.code in contract and contract[fr.code] != list(range(len(fr.animals))):
+                    why.append(f"[matching contract, beyond C12] frame (video {fr.video}, idx {fr.frame_idx}) returns "
+                               f"animals {contract[fr.code]} of {len(fr.animals)} labelled")
+        (ml,) = (yield [f"gtparse {max_inst} {len(per)} " + " ".join(f"{len(m)} " + " ".join(map(str, m)) for m in per)])
+        toks = ml.split()[1:]
+        for i, (fr, r) in enumerate(zip(frames, rows_b)):
+            want = toks[i * max_inst:(i + 1) * max_inst]
+            got = ["-" if inst is None else str(which_animal(fr, inst)) for inst in r["insts"]]
+            if got != want:
+                chk.disagree("FindInstancePeaksGroundTruth rows == Decode.gtPeaks", {**small, "position": i}, got, want)
+                break
+    chk.case(("gt", json.dumps(small, sort_keys=True)),
+             {"case": "gt_peaks", "B": B, "max_instances": mi, "animals_per_frame": n_an, "centroids_per_frame": n_bumps,
+              "order": order, "frame_idx": [f.frame_idx for f in frames]},
+             tags=["gt_peaks", f"B={B}", f"mi={mi}", "gt_eff=1" if case["max_hw"][0] is None else "gt_eff!=1",
+                   "fewer_than_max_before_another" if any(n < max_inst for n in n_an[:-1]) else "no_short_frame_first",
+                   "gt_frame_without_match" if 0 in n_bumps else "gt_all_frames_matched",
+                   "gt_more_centroids_than_slots" if any(n > max_inst for n in n_bumps) else "gt_centroids_fit",
+                   "frame_idx>2^24" if any(f.frame_idx > 2 ** 24 for f in frames) else "frame_idx_small"]
+             + ([f"bias={case['bias']}"] if case.get("bias") else []))
     if why:
         chk.fail("C12 fails on top-down with ground-truth peaks: " + "; ".join(why[:3]), small,
                  {"batch": [[r["code"], r["fidx"], ["-" if i is None else "inst" for i in r["insts"]]] for r in rows_b][:8]})
 
 
+BIG_IDX = [2 ** 24 + 1, 2 ** 24 + 5, 40_000, 7, 0, 2 ** 24 + 11, 123_456_789, 2 ** 24 + 17]
+
+
+def sparse_indices(rng, case):
+    """sparse / large frame indices (incl. values float32 cannot represent), distinct within a video"""
+    for v in case["videos"]:
+        picks = rng.sample(BIG_IDX, min(len(v), len(BIG_IDX)))
+        for k, f in enumerate(v):
+            f["frame_idx"] = picks[k % len(picks)] + (0 if k < len(picks) else 1000 * k)
+    return case
+
+
 def gen_gt(rng, i):
     """mixed animal counts (1…4), no empty frame (the reader cannot stack zero instances), keypoints
-    close to the centroid (= node 0) so the nearest-instance match is the animal itself; eff = 1"""
-    for _ in range(60):
-        case = gen_topdown_case(rng, refine=("integral" if i % 3 == 2 else None), max_instances=[None, None, 2][i % 3],
-                                counts=(1, 1, 2, 3, 4))
+    close to the centroid (= node 0) so the nearest-instance match is the animal itself.  Variants:
+    size matching (eff ≠ 1), frames whose animals the network does not see, extra unlabelled centroids
+    (more centroids than labelled slots), varied bump heights, sparse/large frame indices."""
+    variant = ["plain", "eff", "gains_mi", "hidden", "phantom", "sparse"][i % 6]
+
+    def hw_fn(r, sizes):
+        if variant == "eff" or (variant in ("hidden", "phantom") and r.random() < 0.5):
+            e = r.choice([0.5, 0.75, 1.5, 2.0])
+            return [int(sizes[0][0] * e), int(sizes[0][1] * e) + r.choice([0, 8])]
+        return [None, None]
+    for _ in range(80):
+        case = gen_topdown_case(rng, refine=("integral" if i % 3 == 2 else None),
+                                max_instances=(2 if variant == "gains_mi" else None),
+                                counts=(1, 1, 2, 3, 4), max_hw_fn=hw_fn)
         case["videos"] = case["videos"][:1]
         v = case["videos"][0]
-        if i % 3 == 1:   # size matching active (eff_scale ≠ 1)
-            e = rng.choice([0.5, 0.75, 1.5, 2.0])
-            case["max_hw"] = [int(v[0]["H"] * e), int(v[0]["W"] * e) + rng.choice([0, 8])]
-        else:
-            case["max_hw"] = [None, None]
         while len(v) < 3:
             v.append(json.loads(json.dumps(v[rng.randrange(len(v))])))
-        if all(f["animals"] for f in v) and len({len(f["animals"]) for f in v}) > 1:
+        counts = [len(f["animals"]) for f in v]
+        if all(counts) and len(set(counts)) > 1 and (variant != "phantom" or counts.count(max(counts)) == 1):
             break
     for f in v:
         for a in f["animals"]:
@@ -505,10 +702,28 @@ def gen_gt(rng, i):
                 pts.append(None if rng.random() < 0.25 else
                            [min(max(cx + rng.choice([-1, 1]) * (0.5 + rng.random()), 0.5), f["W"] - 1.5),
                             min(max(cy + rng.choice([-1, 1]) * (0.5 + rng.random()), 0.5), f["H"] - 1.5)])
-            a["pts"] = [None if p is None else [round(p[0] * 16) / 16 + 1 / 64, round(p[1] * 16) / 16 + 1 / 64]
-                        for p in pts]
+            a["pts"] = [pts[0]] + [None if p is None else [round(p[0] * 16) / 16 + 1 / 64, round(p[1] * 16) / 16 + 1 / 64]
+                                   for p in pts[1:]]
             a["centroid"] = a["pts"][0]
+            if variant == "gains_mi":
+                a["gain"] = rng.choice([0.35, 0.5, 0.7, 1.0])
+    if variant == "hidden":        # a frame none of whose animals the network sees, and one seen only in part
+        k = rng.randrange(len(v))
+        for a in v[k]["animals"]:
+            a["rendered"] = False
+        k2 = (k + 1) % len(v)
+        if len(v[k2]["animals"]) > 1:
+            v[k2]["animals"][0]["rendered"] = False
+    if variant == "phantom":       # the largest frame loses one LABEL but keeps the bump: centroids > labelled slots
+        counts = [len(f["animals"]) for f in v]
+        k = counts.index(max(counts))
+        if counts[k] >= 2 and counts.count(counts[k]) == 1:
+            gone = v[k]["animals"].pop(rng.randrange(counts[k]))
+            v[k]["phantoms"] = [gone["centroid"]]
     case["pipeline"] = "gt"
+    case["variant"] = variant
+    if variant == "sparse":
+        sparse_indices(rng, case)
     add_order(rng, case, subset=False)
     if i % 2 == 0:   # bias: a frame with FEWER animals than the maximum placed BEFORE another frame, one batch
         order = sorted(case["order"], key=lambda o: len(v[o[1]]["animals"]))
@@ -612,11 +827,19 @@ def add_order(rng, case, subset=True):
 def gen_topdown(rng, i):
     refine = "integral" if (i // 3) % 2 else None
     mi = [None, 1, 2][i % 3]
-    case = gen_topdown_case(rng, refine=refine, max_instances=mi, counts=(0, 0, 1, 2, 3, 3, 4))
+    case = gen_topdown_case(rng, refine=refine, max_instances=mi, counts=(0, 0, 1, 2, 3, 3, 4),
+                            nv=(3 if i % 5 == 4 else None))
+    if i % 5 in (2, 4):     # weak and strong detections: top-k decides between clearly different scores
+        for v in case["videos"]:
+            for f in v:
+                for a in f["animals"]:
+                    a["gain"] = rng.choice([0.35, 0.5, 0.7, 0.85, 1.0])
     # more frames per video than C02 uses: 2-4
     for v in case["videos"]:
         while len(v) < 2:
             v.append(json.loads(json.dumps(v[0])))
+    if i % 5 == 3:
+        sparse_indices(rng, case)
     return add_order(rng, case)
 
 
@@ -629,6 +852,8 @@ def gen_single(rng, i):
         for k, f in enumerate(v):
             for a in f["animals"]:
                 a["pts"] = [None if p is None else [min(p[0] + 0.5 * k, f["W"] - 1.5), p[1]] for p in a["pts"]]
+    if i % 4 == 1:
+        sparse_indices(rng, case)
     return add_order(rng, case)
 
 
@@ -725,6 +950,8 @@ def case_gen(chk, case):
         return check_modes(chk, case)
     if case["pipeline"] == "gt":
         return check_gt(chk, case)
+    if case["pipeline"] == "gtc":
+        return check_gtc(chk, case)
     return check_single(chk, case) if case["pipeline"] == "single" else check_topdown(chk, case)
 
 
@@ -1102,6 +1329,38 @@ def replay_fc12(chk):
     return any(modes), f"modes seen during SingleInstancePredictor inference (True = train): {sorted(set(modes))}"
 
 
+FC12B_CASE = {"pipeline": "gt", "sc": 1.0, "os_c": 2, "ms_c": 2, "max_hw": [96, 128], "batch": 1, "refine": None,
+              "max_instances": None, "n_nodes": 2, "order": [[0, 0]], "perm": [[0, 0]],
+              "videos": [[{"H": 48, "W": 64, "animals": [{"centroid": [15.0, 10.0], "pts": [[15.0, 10.0], [16.0, 11.5]]},
+                                                          {"centroid": [30.0, 20.0], "pts": [[30.0, 20.0], [31.5, 21.0]]},
+                                                          {"centroid": [50.0, 36.0], "pts": [[50.0, 36.0], [49.0, 37.5]]}]}]]}
+
+
+def replay_fc12b(chk):
+    """regression of F-C12b (fixed in f7807c8): GT peaks with eff_scale = 2 must return animals 0, 1, 2"""
+    vids = frames_of(FC12B_CASE)
+    rows, _ = impl_gt(FC12B_CASE, vids)
+    ids = [None if inst is None else which_animal(vids[0][0], inst) for inst in rows[0]["insts"]]
+    return ids != [0, 1, 2], f"48x64 frame matched to 96x128, animals at (15,10),(30,20),(50,36): rows hold animals {ids}"
+
+
+def replay_fc12c(chk):
+    """F-C12c: a top-down record of frame 16777217 must carry 16777217"""
+    rng = __import__("random").Random(3)
+    for i in range(40):
+        case = gen_topdown(rng, 0)
+        if sum(1 for v in case["videos"] for f in v if f["animals"]) >= 1:
+            break
+    for v in case["videos"]:
+        for k, f in enumerate(v):
+            f["frame_idx"] = 2 ** 24 + 1 + 4 * k
+    vids = frames_of(case)
+    rows, _, _ = impl_topdown(case, "LabelsReader", vids)
+    want = sorted({f.frame_idx for v in vids for f in v if f.animals})
+    got = sorted({r["fidx"] for r in rows})
+    return got != want, f"frames {want} with detections → records carry frame_idx {got}"
+
+
 def main(chk: Check):
     chk.build_and_audit()
     import_repo()
@@ -1112,6 +1371,11 @@ def main(chk: Check):
     if any(e["id"] == "F-C12" for e in chk.known):
         still, detail = replay_fc12(chk)
         chk.known_replay("F-C12", still_fails=still, detail=detail)
+    for fid, fn in (("F-C12b", replay_fc12b), ("F-C12c", replay_fc12c)):
+        if any(e["id"] == fid for e in chk.known):
+            still, detail = fn(chk)
+            chk.known_replay(fid, still_fails=still, detail=detail)
+            chk.extra[fid + "_witness"] = detail
     cases = []
     for f in sorted((CORPUS / "C12").glob("*.json")) if (CORPUS / "C12").exists() else []:
         cases.append(json.loads(f.read_text()))
@@ -1129,8 +1393,10 @@ def main(chk: Check):
             base["batch"] = 2
         base["modes"] = True
         cases.append(base)
-    for i in range(chk.n(14, 160)):
+    for i in range(chk.n(18, 180)):
         cases.append(gen_gt(rng, i))
+    for i in range(chk.n(6, 60)):
+        cases.append(gen_gtc(rng, i))
     run_cases(chk, cases)
     bottomup_cases(chk, chk.n(10, 120))
     bottomup_small_cases(chk, chk.n(4, 40))
@@ -1165,13 +1431,18 @@ if __name__ == "__main__":
             "hand-written model of the batch plumbing in Decode.lean; tied to /repo by comparison on the explored batches only",
             "the network is sample-wise IN EVAL MODE (law `eval_indep` of BatchNorm/Dropout); that the wrappers run it in eval "
             "mode and leave its running statistics alone is observed on stubs with BatchNorm+Dropout under four call histories",
+            "peak finding, integral refinement, crop indexing (sample*channels+channel) and PAF scoring being sample-wise is "
+            "assumed by the model's TYPES (Frame.peaks, inst, group, row are functions of one frame/crop) — no theorem speaks "
+            "about them; they are covered only by the model-free oracle batch ≡ alone ≡ permuted",
+            "the `bu` driver op consumes the sample indices RECORDED from the implementation's find_local_peaks (it checks "
+            "out['peaks'][b] against that recording, a harness-side identity); the `keeptop` op consumes recorded instance scores",
             "find_local_peaks returns a frame's peaks in row-major cell order, one per separated animal (C06); the per-frame "
             "peak list the model receives is the harness's own reading of the rendered centroid map",
             "torch.topk order among exactly equal values is unspecified: ties are skipped and counted",
             "harness/stubs.py (frame identification from pixel intensity; in-memory sio.Video/Labels)",
         ],
         rule="frame lists of 2-8 labeled frames over 1-2 videos (sizes, size-matching, scales, strides, crop as in C02), 0-4 "
-             "animals per frame mixed incl. empty frames, shuffled reader order with arbitrary frame indices, batch size 1..5, "
+             "animals per frame mixed incl. empty frames, shuffled reader order, frame indices 0..n-1 or sparse/large (up to 123456789, incl. values > 2^24), batch size 1..5, "
              "max_instances in {None,1,2}, refinement {none, integral}; each case = batch run + per-frame run (B=1) + permuted "
              "run (+ VideoReader B vs 1 for single-instance); distinct = distinct full case",
         assumptions=["bottom-up is exercised at the inference-model + consumer level (harness/c03.py's stub), not through _predict_generator",
